@@ -21,10 +21,11 @@ Definition gfile0 : gfile := {| gf_elf := elf0; gf_syms := []; gf_buildid := "" 
 Record gmapping := {
   gm_start : Z; gm_limit : Z; gm_offset : Z; gm_buildid : string;
   gm_rec : Z; gm_cands : list Z;
-  gm_truth : Z; gm_bias : Z   (* specification side only: the file really loaded, and where *)
+  gm_truth : Z; gm_bias : Z;  (* specification side only: the file really loaded, and where *)
+  gm_fkind : Z                (* legacy map entries: 0 named file, 1 named library (.so), 2 no name, 3 /anon_hugepage *)
 }.
 Definition gmapping0 : gmapping :=
-  {| gm_start := 0; gm_limit := 0; gm_offset := 0; gm_buildid := ""; gm_rec := -1; gm_cands := []; gm_truth := -1; gm_bias := 0 |}.
+  {| gm_start := 0; gm_limit := 0; gm_offset := 0; gm_buildid := ""; gm_rec := -1; gm_cands := []; gm_truth := -1; gm_bias := 0; gm_fkind := 0 |}.
 
 (* a source profile: scale (+1 source, -1 diff base), mappings, samples = (stack of (mapping
    index, address), leaf first; value) *)
@@ -190,3 +191,112 @@ Definition report_stacks (ns : list (list string * Z)) : list (string * Z) :=
   aggregate (map (fun s => (join_names (fst s), snd s)) ns).
 Definition report_flat (ns : list (list string * Z)) : list (string * Z) :=
   aggregate (map (fun s => (match fst s with n :: _ => n | [] => ""%string end, snd s)) ns).
+
+(* ---- legacy profiles: profile.go:256 massageMappings, legacy_profile.go:191 remapMappingIDs ----
+   The memory map entries (executable ones, in file order) become the mappings of the profile. *)
+Definition gm_name (m : gmapping) : option Z :=
+  if gm_fkind m =? 2 then None else if gm_fkind m =? 3 then Some (-2) else Some (gm_rec m).
+
+(* profile.go:304 adjacent *)
+Definition adjacent (m1 m2 : gmapping) : bool :=
+  (match gm_name m1, gm_name m2 with Some a, Some b => a =? b | _, _ => true end) &&
+  (String.eqb (gm_buildid m1) "" || String.eqb (gm_buildid m2) "" || String.eqb (gm_buildid m1) (gm_buildid m2)) &&
+  (gm_limit m1 =? gm_start m2) &&
+  ((gm_offset m1 =? 0) || (gm_offset m2 =? 0) ||
+   (uadd (gm_offset m1) (usub (gm_limit m1) (gm_start m1)) =? gm_offset m2)).
+
+(* the merged entry: the first part's start and OFFSET, the second part's limit; file and build id
+   of the second part when it has them *)
+Definition merge_adjacent (lm m : gmapping) : gmapping :=
+  let named := match gm_name m with Some _ => true | None => false end in
+  {| gm_start := gm_start lm; gm_limit := gm_limit m; gm_offset := gm_offset lm;
+     gm_buildid := if String.eqb (gm_buildid m) "" then gm_buildid lm else gm_buildid m;
+     gm_rec := if named then gm_rec m else gm_rec lm;
+     gm_cands := if named then gm_cands m else gm_cands lm;
+     gm_truth := if named then gm_truth m else gm_truth lm;
+     gm_bias := if named then gm_bias m else gm_bias lm;
+     gm_fkind := if named then gm_fkind m else gm_fkind lm |}.
+
+(* the merge loop: [acc] holds the mappings so far in reverse, its head is the last one *)
+Fixpoint massage_merge (acc : list gmapping) (ms : list gmapping) : list gmapping :=
+  match ms with
+  | [] => rev acc
+  | m :: r =>
+      match acc with
+      | lm :: acc' => if adjacent lm m then massage_merge (merge_adjacent lm m :: acc') r
+                      else massage_merge (m :: acc) r
+      | [] => massage_merge [m] r
+      end
+  end.
+
+(* the main-binary heuristic: the first entry with a name that is not a library and does not start
+   with '[' is swapped to position 0 *)
+Definition main_candidate (m : gmapping) : bool := (gm_fkind m =? 0) || (gm_fkind m =? 3).
+Definition swap_to_front (l : list gmapping) (i : nat) : list gmapping :=
+  match l with
+  | [] => []
+  | x0 :: _ => match i with
+               | O => l
+               | _ => set_nth (set_nth l 0 (nth i l x0)) i x0
+               end
+  end.
+Definition massage_mappings (ms : list gmapping) : list gmapping :=
+  let merged := massage_merge [] ms in
+  match find_index main_candidate merged 0 with
+  | Some i => swap_to_front merged i
+  | None => merged
+  end.
+
+Definition with_range (m : gmapping) (start offset : Z) : gmapping :=
+  {| gm_start := start; gm_limit := gm_limit m; gm_offset := offset; gm_buildid := gm_buildid m; gm_rec := gm_rec m;
+     gm_cands := gm_cands m; gm_truth := gm_truth m; gm_bias := gm_bias m; gm_fkind := gm_fkind m |}.
+
+(* remapMappingIDs, before the locations: drop a leading /anon_hugepage entry that touches the next
+   one; a main mapping with start - offset = 0x400000 is normalised *)
+Definition remap_prepare (ms : list gmapping) : list gmapping :=
+  let ms1 := match ms with
+             | m0 :: (m1 :: _) as r => if (gm_fkind m0 =? 3) && (gm_limit m0 =? gm_start m1) then r else ms
+             | _ => ms
+             end in
+  match ms1 with
+  | m0 :: r => if usub (gm_start m0) (gm_offset m0) =? 4194304 then with_range m0 4194304 0 :: r else ms1
+  | [] => []
+  end.
+
+Definition fake_mapping : gmapping :=
+  {| gm_start := 0; gm_limit := max_u64; gm_offset := 0; gm_buildid := ""; gm_rec := -1; gm_cands := [];
+     gm_truth := -1; gm_bias := 0; gm_fkind := 2 |}.
+
+(* one location: the first mapping containing the address; else the first mapping whose missing
+   first part [start-offset, start) contains it, which is extended; else the fake mapping (index =
+   number of real mappings).  Address 0 stays without mapping (treated like the fake one). *)
+Definition remap_location (ms : list gmapping) (a : Z) : list gmapping * nat :=
+  if a =? 0 then (ms, List.length ms)
+  else match find_index (fun m => (gm_start m <=? a) && (a <? gm_limit m)) ms 0 with
+       | Some i => (ms, i)
+       | None =>
+           match find_index (fun m => negb (gm_offset m =? 0) && (usub (gm_start m) (gm_offset m) <=? a) && (a <? gm_start m)) ms 0 with
+           | Some i => let m := nth i ms gmapping0 in (set_nth ms i (with_range m (usub (gm_start m) (gm_offset m)) 0), i)
+           | None => (ms, List.length ms)
+           end
+       end.
+
+(* locations in order of first use; an address is one location *)
+Fixpoint remap_frames (ms : list gmapping) (seen : list (Z * nat)) (addrs : list Z) : list gmapping * list (Z * nat) :=
+  match addrs with
+  | [] => (ms, seen)
+  | a :: r =>
+      match find (fun x => fst x =? a) seen with
+      | Some _ => remap_frames ms seen r
+      | None => let '(ms', i) := remap_location ms a in remap_frames ms' ((a, i) :: seen) r
+      end
+  end.
+
+Definition legacy_profile (p : gprofile) : gprofile :=
+  let ms0 := remap_prepare (massage_mappings (gp_maps p)) in
+  let addrs := flat_map (fun s => map snd (fst s)) (gp_samples p) in
+  let '(ms, seen) := remap_frames ms0 [] addrs in
+  let idx := fun a => match find (fun x => fst x =? a) seen with Some (_, i) => i | None => List.length ms end in
+  {| gp_scale := gp_scale p;
+     gp_maps := (ms ++ [fake_mapping])%list;
+     gp_samples := map (fun s => (map (fun fr => (idx (snd fr), snd fr)) (fst s), snd s)) (gp_samples p) |}.
